@@ -262,7 +262,7 @@ pub fn property() -> Property {
                     check_pair(ma, mb, &acts, 3)?;
                     let interesting = m_cmp(ma, mb).is_none() || (ma.len() != mb.len() && m_cmp(ma, mb).is_some());
                     if interesting {
-                        st.nontrivial.insert(hash_of(&(i, j)));
+                        st.nontrivial_enumerated += 1;
                         if st.samples.len() < 2 && i > 20 {
                             st.samples.push(json!({"a": format!("{ma:?}"), "b": format!("{mb:?}"), "pointwise_order": format!("{:?}", m_cmp(ma, mb))}));
                         }
